@@ -48,7 +48,7 @@ def _core_prop(pid, title, fields, technique, level_text, level_note, rule=None,
 CORE_NOTE = ("Trusted: Lean kernel; content addressing (an append is given a fresh hash: distinct entries have distinct CIDs — SHA-256 collision freedom); "
              "Go's sort.SliceStable being a correct stable sort beyond 20 elements (insertion sort is modelled exactly; under a strict total order the result is unique, proved); "
              "the hand-written model of log.go/entry_map.go/utils.go/sorting.go, validated on every run by replaying PRNG histories of the real library on the model and comparing entries, heads, values, snapshots, appended entries, iterator output after every operation; "
-             "additionally the algorithmic core of log.go/utils.go is TRANSLATED from the Go source to Lean on every run (harness/cmd/extract/translate2.go -> lean/Generated/Gen*.lean) and proved equal to the model (lean/Props/Gen*.lean): traverse, FindHeads, difference, the tail of Join, Iterator/sortedHeads, the plan of Append with getEveryPow2, maxClockTimeForEntries — the translators' conventions (DESIGN.md section 10) are trusted; "
+             "additionally the algorithmic core of log.go/utils.go is TRANSLATED from the Go source to Lean on every run (harness/cmd/extract/translate2.go -> lean/Generated/Gen*.lean) and proved equal to the model (lean/Props/Gen*.lean): traverse, FindHeads, difference, the tail of Join, Iterator/sortedHeads, the plan of Append with getEveryPow2, the views values/ToJSONLog/ToSnapshot, maxClockTimeForEntries — the translators' conventions (DESIGN.md section 10) are trusted; "
              "harness, driver, check script.")
 
 _core_prop("C01", "Replicas that merged the same entries converge (join is a CRDT merge)",
@@ -122,11 +122,11 @@ PROPS["C20"] = dict(
 # one module per group of translated functions, so that a function leaving the translatable subset breaks only the
 # properties resting on it)
 PROPS_EXTRA = {
-    'C01': ['Props.GenHeads', 'Props.GenJoin', 'Props.GenTraverse', 'Props.GenJoinTail', 'Props.GenCapstoneJoin'],
-    'C02': ['Props.C13Facts', 'Props.GenHeads', 'Props.GenJoinTail', 'Props.GenCapstoneJoin'],
-    'C03': ['Props.C19Gen', 'Props.GenTraverse', 'Props.GenCapstoneValues'],
+    'C01': ['Props.GenHeads', 'Props.GenJoin', 'Props.GenTraverse', 'Props.GenJoinTail', 'Props.GenCapstoneJoin', 'Props.GenViews'],
+    'C02': ['Props.C13Facts', 'Props.GenHeads', 'Props.GenJoinTail', 'Props.GenCapstoneJoin', 'Props.GenViews'],
+    'C03': ['Props.C19Gen', 'Props.GenTraverse', 'Props.GenCapstoneValues', 'Props.GenViews'],
     'C04': ['Props.C04Conc', 'Props.GenMisc', 'Props.GenAppend', 'Props.GenCapstoneAppend', 'Props.GenNewLog'],
-    'C05': ['Props.GenTraverse', 'Props.GenJoinTail', 'Props.GenCapstoneValues'],
+    'C05': ['Props.GenTraverse', 'Props.GenJoinTail', 'Props.GenCapstoneValues', 'Props.GenViews'],
     'C06': ['Props.EffectFacts', 'Props.CodecFacts', 'Props.GenHeads', 'Props.GenJoin', 'Props.GenJoinTail'],
     'C07': ['Props.CodecFacts'],
     'C08': ['Props.CodecFacts', 'Props.GenMisc'],
